@@ -127,7 +127,7 @@ func genC15(dir, tier string, seed int64) {
 	hdr := "From Coq Require Import List String ZArith.\nFrom V Require Import DType Gate CheckC15.\nFrom Gen Require Import OpTable.\nImport ListNotations.\nOpen Scope string_scope.\nDefinition cases : list gcase := ["
 	ftr := "].\nDefinition verdicts := Eval vm_compute in map (verdict optable13) cases.\nPrint verdicts.\nDefinition kinds := Eval vm_compute in map (kind optable13) cases.\nPrint kinds."
 	cw := newCaseWriter(dir, "C15_gate", hdr, ftr,
-		"exhaustive: every registered operator x every input count 0..max+2 x (an accepted dtype everywhere; each of the 14 dtypes at each position, one at a time; nil at each optional position, alone, together with nil at a later one, and together with each of the 14 dtypes at each later position; for 2-input operators all 14x14 dtype pairs; for the variadic operator counts 0..5)", true, 1500)
+		"exhaustive: every registered operator x every input count 0..max+2 x (an accepted dtype everywhere; each of the 14 dtypes at each position, one at a time; nil at each optional position, alone, together with nil at a later one, and together with each of the 14 dtypes at each later position; for 2-input operators all 14x14 dtype pairs; for the variadic operator counts 0..5 and 31..33, 63..66, 127..129, 200)", true, 1500)
 	emit := func(name string, ins []int) { // ins: dtype index or -1 for nil
 		ts := make([]tensor.Tensor, len(ins))
 		var parts []string
@@ -156,7 +156,27 @@ func genC15(dir, tier string, seed int64) {
 		if in.dynamic {
 			maxCnt = 5
 		}
+		cnts := []int{}
 		for cnt := 0; cnt <= maxCnt; cnt++ {
+			cnts = append(cnts, cnt)
+		}
+		if in.dynamic {
+			cnts = append(cnts, 31, 32, 33, 63, 64, 65, 66, 127, 128, 129, 200) // around powers of two: fixed-size tables
+		}
+		for _, cnt := range cnts {
+			if in.dynamic && cnt > 5 { // large counts: only the all-accepted list and one foreign dtype at the ends
+				base := make([]int, cnt)
+				for i := range base {
+					base[i] = okAt(i)
+				}
+				emit(in.name, base)
+				for _, pos := range []int{0, cnt - 1} {
+					c := append([]int{}, base...)
+					c[pos] = 12 // String
+					emit(in.name, c)
+				}
+				continue
+			}
 			base := make([]int, cnt)
 			for i := range base {
 				base[i] = okAt(i)
